@@ -10,6 +10,7 @@
      C10_frombasepath_contract   FromBasePath panics exactly outside of B (pinned API contract)
      C10_errors          a translated-back path is a function of the part below B only (B is not revealed)
      C10_getwd           Getwd is total, "/" when the base's cwd is outside B
+     C10_root_refused    isRoot (the guard of Remove/RemoveAll) holds exactly for the virtual root; otherwise the base gets a path strictly below B
      C10_table           finite: every method of the regenerated table has a recognised, safe shape
      C10_table_safe      ... which means: every string handed to the base is translated, nothing comes back through the panicking FromBasePath
      C10_chroot_partial  over an ABSTRACT base: wrapper = standalone on every history, nothing outside B changes;
@@ -66,6 +67,15 @@ Theorem C10_getwd : forall B base_cwd,
   (exists ws, Forall name ws /\ bp_getwd Linux B base_cwd = Some (cpath ws))
   /\ (clean_abs_path B -> has_base_path Linux B base_cwd = false -> bp_getwd Linux B base_cwd = Some [SLASH]).
 Proof. exact getwd_spec. Qed.
+
+(* Remove / RemoveAll refuse exactly the paths that designate the virtual root; any
+   other path reaches the base strictly below B *)
+Theorem C10_root_refused : forall B base_cwd p,
+  clean_abs_path B ->
+  exists vcwd, cur_dir Linux B base_cwd = Some vcwd
+    /\ (is_root Linux B base_cwd p = true <-> abs Linux vcwd p = [SLASH])
+    /\ (is_root Linux B base_cwd p = false -> to_base_path Linux B base_cwd p <> Some B).
+Proof. exact is_root_iff. Qed.
 
 (* finite: the method table regenerated from the current source *)
 Theorem C10_table :
